@@ -61,7 +61,8 @@ def describe (c : Cal) : String :=
 def handle (s : St) (op : String) (args : List Sexp) : Option (St × String) := do
   match op, args with
   -- `newd`: the same calendar, the caller handed the holidays over as `datetime.date` / datetimes with a time of day
-  | "new", [t0, t1, we, hol, adj] | "newd", [t0, t1, we, hol, adj] =>
+  -- `newt`: the same calendar, the caller handed the range endpoints over with a time of day (a range endpoint is a day)
+  | "new", [t0, t1, we, hol, adj] | "newd", [t0, t1, we, hol, adj] | "newt", [t0, t1, we, hol, adj] =>
       let t0 ← t0.toInt?; let t1 ← t1.toInt?; let we ← intList we; let hol ← intList hol
       if degenerate we then none
       let c0 : Cal := { t0, t1, weekend := we, hol, adj := .m, month := ymKey }
@@ -87,6 +88,11 @@ def handle (s : St) (op : String) (args : List Sexp) : Option (St × String) := 
         let a ← adjOf c a; let t ← t.toInt?; let n ← n.toInt?
         if n = 0 && c.isHol (c.adjust a t) then pure (s, "err Other")   -- real code: endless loop
         else pure (s, resInt (c.addT s.tbl a t n))
+    | "clock", [t] =>     -- Calendar.clock(t) = dt2int.get(t, dt2int[adjust(t)]) (_drange.py:615-618): the table index of adjust(t)
+        let t ← t.toInt?
+        pure (s, match clockOfT s.tbl (c.adjust c.adj t) with
+                 | .ok i => okInt i
+                 | .error e => "err " ++ e.render)
     | "bdays", [a, x, y] =>
         let a ← adjOf c a; let x ← x.toInt?; let y ← y.toInt?
         pure (s, resInt (c.bdaysBetweenT s.tbl a x y))
